@@ -104,6 +104,16 @@ def no_panic(obs, case):
     return None
 
 
+def no_panic_but_the_hosts(obs, case):
+    """a panic raised by the host function `crash` passes through Next (that is the host's panic, and the model says so too:
+    the comparison requires PANIC exactly there); any other panic is the library's"""
+    for i, o in enumerate(obs):
+        if obs_kind(o) == "PANIC" or " PANIC" in o.split("|")[0]:
+            if "crash(" not in o:
+                return f"observation {i} is a panic"
+    return None
+
+
 def after_end_absorbing(obs, case):
     """C12 on the implementation's own trace: per runner, after END every next is END with no effects, until a restore."""
     ops = re.findall(r"\((next|snap|resnap|mutsnap|restorenil|restorebad|restore|hset|hrev|hclear|addcmd|complete|newalt|new) (\d+)", case.split("(ops", 1)[-1])
@@ -711,7 +721,7 @@ PROPERTIES = {
                    nontrivial=lambda obs, case: len({parse_run(o)["vis"] for o in obs}) >= 3,
                    rule="run/visits: jump graphs with self-loops, cycles, jumps out of nested bodies and by expression, nodes marked tracking never/always, visit counters rendered in lines, snapshots and restores; compared: elements and the visit-count map after every operation; non-trivial = at least 3 distinct counter maps",
                    leanchecker=["Ysgo.Props.C11"]),
-    "C12": runprop("end", ("res", "log", "v"), ("text", "dis"), 1500, 60000, predicate=both(no_panic, after_end_absorbing),
+    "C12": runprop("end", ("res", "log", "v"), ("text", "dis"), 1500, 60000, predicate=both(no_panic_but_the_hosts, after_end_absorbing),
                    # long sessions: more than ten thousand further calls after the end
                    extra_streams=[{"stream": "run", "profile": "long", "quick": 3, "thorough": 12, "project": project_run(("res", "log", "v"), ("text", "dis")),
                                    "predicate": both(no_panic, after_end_absorbing), "nontrivial": lambda obs, case: len(obs) > 10000, "timeout": 1800}],
